@@ -298,6 +298,10 @@ def given_value(acls, pname, default, opname, n_results, variant=0):
         if variant:
             return 5 if default == 2 else 2
         return 4 if default == 3 else 3
+    if acls == "float" and variant in (3, 4):
+        return 0.0 if variant == 3 else -0.0     # equal as Python numbers, different attributes (the sign bit must arrive)
+    if acls == "floats" and variant in (3, 4):
+        return (0.0, 1.0) if variant == 3 else (-0.0, 1.0)
     if acls == "float":
         if variant:
             return -2.5 if default == 1e-3 else 1e-3  # 1e-3 is not exactly representable: rounding to float32 is exercised
@@ -528,6 +532,11 @@ def patterns(ctx, rng=None, n_random=0):
     for a, acls, _o, d in ctx.kw:
         if d is not inspect.Parameter.empty and acls in ("ints", "floats", "strs"):
             add("attr-empty-list:" + a, [], 1, [a], variant=2)
+    for a, acls, _o, d in ctx.kw:
+        if d is not inspect.Parameter.empty and acls in ("float", "floats"):
+            # two calls in a row whose values are EQUAL as Python objects but are different attributes (0.0, then -0.0)
+            add("attr-zero:" + a, [], 1, [a], variant=3)
+            add("attr-negative-zero:" + a, [], 1, [a], variant=4)
     add("all-attrs", [], 1, opt_attrs)
     add("all-attrs+all-inputs", opt_inputs, 1, opt_attrs)
     add("no-attrs+all-inputs", opt_inputs, 1, [])
